@@ -56,6 +56,7 @@ Definition ecode_table : list (string * Z) := [
   (* Encode: a failing writer (1..5; the hand model's writer never fails: code 11), the size check (6: Model/TTHeader.v e_toolarge) *)
   ("ttheader.Encode#fmt.Errorf#1", 11); ("ttheader.Encode#fmt.Errorf#2", 11); ("ttheader.Encode#fmt.Errorf#3", 11);
   ("ttheader.Encode#fmt.Errorf#4", 11); ("ttheader.Encode#fmt.Errorf#5", 11); ("ttheader.Encode#fmt.Errorf#6", 10);
+  ("thrift.MarshalFastMsg#errors.New", 30);
   ("thrift.SkipDecoderTpl.Skip#thrift.NewProtocolException", 18); ("thrift.skipType#thrift.NewProtocolException", 18);
   (* the labels thrift.PrependError adds in the FastRead methods of base/k-base.go (the labels lbl_begin, lbl_field, lbl_skip of Model/FastCodec.v) *)
   ("base.Base.FastRead#thrift.PrependError#1", 100); ("base.Base.FastRead#thrift.PrependError#2", 200);
